@@ -140,6 +140,8 @@ def tasks(tier, seed):
     for M in ([2, 3] if quick else [1, 2, 3, 4]):
         T.append(('diag', M, 'implicit'))
         T.append(('diag', M, 'imex'))
+        if M >= 2:
+            T.append(('diag', M, 'implicit', True))
     for nm in ('AdamsBashforthExplicit1Step', 'BackwardEuler', 'AdamsMoultonImplicit1Step', 'AdamsMoultonImplicit2Step'):
         T.append(('multistep', nm))
     T.append(('tables',))
@@ -169,7 +171,7 @@ def run_task(rep, task):
     elif task[0] == 'diag':
         from harness.c02_rk import diag_case
 
-        diag_case(rep, task[1], task[2])
+        diag_case(rep, task[1], task[2], reconf=(len(task) > 3 and bool(task[3])))
     elif task[0] == 'multistep':
         from harness.c02_rk import multistep_case
 
